@@ -114,4 +114,62 @@ theorem restored_dinv (own : Bytes → Bool) (n : Nat) (hn : 1 ≤ n) (ps : List
       | cons l0 D => rw [hL] at ht; simp at ht; simp [ht]
     exact Nat.lt_of_le_of_lt (Nat.le_trans (seq_le_tblEndSeq t e he) (tblEndSeq_le_latest _ t htf)) (hall e' he').1
 
+/-! ### table numbering after a multi-handle restore -/
+
+theorem lt_nextTableId (levels : List (List Tbl)) (t : Tbl) (ht : t ∈ levels.flatten) : t.id < nextTableId levels := by
+  have := (foldl_max_ge (fun t : Tbl => t.id + 1) levels.flatten 0).2 t ht
+  unfold nextTableId
+  omega
+
+/-- every table of every handle is in the composite level list (documents with the same number of levels) -/
+theorem mem_mergeLevels_of_handle (cs : List Ckpt) (n : Nat) (hn : ∀ c ∈ cs, c.levels.length = n)
+    (h : Ckpt) (hh : h ∈ cs) (t : Tbl) (ht : t ∈ h.levels.flatten) : t ∈ (mergeLevels cs).flatten := by
+  obtain ⟨l, hl, htl⟩ := List.mem_flatten.mp ht
+  obtain ⟨i, hi⟩ := List.getElem?_of_mem hl
+  have hilt : i < n := by
+    have := (List.getElem?_eq_some_iff.mp hi).1; rw [hn h hh] at this; exact this
+  have hcat : t ∈ concatLevel cs i := by
+    unfold concatLevel
+    refine List.mem_flatten.mpr ⟨h.levels.getD i [], List.mem_map.mpr ⟨h, hh, rfl⟩, ?_⟩
+    rw [List.getD_eq_getElem?_getD, hi]; exact htl
+  match cs, hh, hn, hcat with
+  | [c], hh, _, _ =>
+    have : h = c := by simpa using hh
+    subst this
+    simpa [mergeLevels] using ht
+  | a :: b :: rest, _, hn, hcat =>
+    rw [mergeLevels_of_len (a :: b :: rest) n (by simp) hn]
+    refine List.mem_flatten.mpr ⟨_, List.mem_map.mpr ⟨i, List.mem_range.mpr hilt, rfl⟩, ?_⟩
+    by_cases h0 : i = 0
+    · subst h0; simpa using hcat
+    · simp only [h0, if_false]
+      exact (List.mergeSort_perm _ tblLe).mem_iff.mpr hcat
+
+theorem foldl_applyWal_nextId (own : Bytes → Bool) : ∀ (wal : List WalEntry) (s : State) (m : Run),
+    s.mems = [m] → s.reading = none → (wal.foldl (applyWal own) s).nextId = s.nextId := by
+  intro wal
+  induction wal with
+  | nil => intro s m _ _; rfl
+  | cons w ws ih =>
+    intro s m hm hr
+    simp only [List.foldl_cons]
+    by_cases ho : own w.key = true
+    · have hs1 : applyWal own s w = { s with seq := s.seq + 1, mems := [Run.insert m (wEntry (s.seq + 1) w.key w.del w.val)] } := by
+        unfold applyWal; simp only [ho, if_true]; exact write_single s m hm hr _ _ _
+      rw [ih _ _ (by rw [hs1]) (by rw [hs1]; exact hr), hs1]
+    · have hs1 : applyWal own s w = s := by unfold applyWal; simp [ho]
+      rw [hs1]; exact ih s m hm hr
+
+theorem openDB_nextId (own : Bytes → Bool) (c : Ckpt) (cs : List Ckpt) :
+    (openDB own (c :: cs)).nextId = nextTableId (mergeLevels (c :: cs)) := by
+  unfold openDB openWith
+  exact foldl_applyWal_nextId own _ (startState tblEndSeq (mergeLevels (c :: cs))) [] rfl rfl
+
+theorem mkTables_id_ge (start : Nat) (runs : List Run) (t : Tbl) (ht : t ∈ mkTables start runs) : start ≤ t.id := by
+  unfold mkTables at ht
+  obtain ⟨i, hi, h⟩ := List.getElem_of_mem ht
+  simp only [List.getElem_zipWith] at h
+  rw [← h]
+  exact Nat.le_add_right _ _
+
 end Rxn.Rescale
